@@ -153,7 +153,7 @@ fn main() {
             let seed: u64 = args[2].parse().unwrap();
             let dir = &args[3];
             let mut rng = rng::Rng::new(seed);
-            let p = project::gen_project(&mut rng, &project::ProjectOpts { cycles: args.get(4).is_some(), closed_imports: true, max_files: 5, ..Default::default() });
+            let p = project::gen_project(&mut rng, &project::ProjectOpts { cycles: args.get(4).is_some(), closed_imports: true, max_files: 5, introspection_pct: std::env::var("NVSIM_INTRO").ok().and_then(|s| s.parse().ok()).unwrap_or(0), ..Default::default() });
             for (path, text) in p.files() {
                 let real = format!("{}{}", dir, path.strip_prefix(project::SANDBOX).unwrap());
                 std::fs::create_dir_all(Path::new(&real).parent().unwrap()).unwrap();
